@@ -20,7 +20,7 @@ Shareds == { <<"shared", 1>>, <<"shared", 2>>, <<"shared", 3>> }
 (* depth-1 nodes over a set K of kids *)
 Nodes(K) ==
          { <<"obj", "Z", <<>>>> }
-    \cup { <<"obj", "A", <<k>>>> : k \in K }
+    \cup { <<"obj", "A", <<k>>>> : k \in K } \cup { <<"obj", "A2", <<k>>>> : k \in K }
     \cup { <<"obj", "B", <<k1, k2>>>> : k1 \in K, k2 \in K }
     \cup { <<"list", <<>>>> } \cup { <<"list", <<k>>>> : k \in K } \cup { <<"list", <<k1, k2>>>> : k1 \in K, k2 \in K }
     \cup { <<"tuple", <<k1, k2>>>> : k1 \in K, k2 \in K }
